@@ -25,6 +25,7 @@ pub mod c15;
 pub mod c16;
 pub mod c18;
 pub mod c19;
+pub mod values;
 
 pub type PString = GenericPurl<String>;
 pub type PSmall = GenericPurl<SmallString>;
